@@ -84,6 +84,9 @@ class Concrete(object):
             items.append((self.case_names[0], list(self.case_vals[self.case_names[0]][:2])))
         if not items:
             return None
+        if spelling == "iter":
+            # values given as single-pass iterables (generator / iterator objects)
+            return {k: (x for x in v) if i % 2 == 0 else iter(v) for i, (k, v) in enumerate(items)}
         if spelling == "dict":
             return dict(items)
         if spelling == "tuple":
@@ -454,6 +457,9 @@ def _ds_fn(log, mode, first_index=None):
             return xr.Dataset({"x": float(i), "v": ("t", np.array([float(i), i + 0.5]))}, coords={"t": [j, j + 1]})
         if mode == "x":
             return float(i)
+        if mode == "xmix":
+            # the first setting returns a Python int, the others non-integral floats
+            return int(i) if i == 1 else float(i) + 0.25
         if mode == "xy":
             return float(i), float(2 * i)
         if mode == "xv":
@@ -515,7 +521,21 @@ def replay_case(case, variant):
     try:
         with ForcedShuffle(case["order"] if cfg["shuffle"] and not cfg["overlap"] else [1]) as fs:
             if kind in ("nested", "flat"):
-                if entry == "case_runner" and cfg["nca"] and kind == "flat":
+                if entry == "case_runner" and cfg["nca"] and kind == "flat" and variant.get("infer_fn_args") and not cfg["overlap"]:
+                    # argument names inferred from the signature; all but the first case argument keyword-only
+                    names = list(conc.case_names)
+                    src = "def wrapped(%s%s, **rest):\n    return target(%s, **rest)\n" % (
+                        names[0], "".join(", *, " + ", ".join(names[1:])) if len(names) > 1 else "",
+                        ", ".join("%s=%s" % (n_, n_) for n_ in names))
+                    ns = {"target": fn}
+                    exec(src, ns)
+                    tcases = conc.cases(as_dict=False)
+                    if len(names) == 1:
+                        tcases = [c_ if isinstance(c_, tuple) else (c_,) for c_ in tcases]
+                    import inspect
+                    res = car.case_runner(ns["wrapped"], tuple(inspect.signature(ns["wrapped"]).parameters)[:len(names)] and None, tcases,
+                                          combos=combos, constants={**conc.resources, **consts}, split=split, **opts)
+                elif entry == "case_runner" and cfg["nca"] and kind == "flat":
                     res = car.case_runner(fn, conc.case_names[0] if (len(conc.case_names) == 1 and variant.get("bare_cases")) else conc.case_names, cases_t,
                                           combos=combos, constants={**conc.resources, **consts}, split=split, **opts)
                 else:
@@ -524,7 +544,7 @@ def replay_case(case, variant):
             else:
                 mode = variant.get("ds", "x")
                 to_df = kind == "df"
-                var_names = {"x": "x", "xy": ["x", "y"], "xv": ["x", "v"], "auto": None, "autodict": None, "autovar": None}[mode]
+                var_names = {"x": "x", "xy": ["x", "y"], "xv": ["x", "v"], "auto": None, "autodict": None, "autovar": None, "xmix": "x"}[mode]
                 var_dims = None
                 var_coords = None
                 if mode == "xv":
@@ -655,7 +675,7 @@ def check_ds(case, conc, variant, ds):
     mode = variant.get("ds", "x")
     axes = case["axes"]
     avals = axis_values(conc, axes)
-    vars_ = {"x": ["x"], "xy": ["x", "y"], "xv": ["x", "v"], "auto": ["x", "v"], "autodict": ["x", "y"], "autovar": ["x", "v"]}[mode]
+    vars_ = {"x": ["x"], "xy": ["x", "y"], "xv": ["x", "v"], "auto": ["x", "v"], "autodict": ["x", "y"], "autovar": ["x", "v"], "xmix": ["x"]}[mode]
     if sorted(ds.data_vars) != sorted(vars_):
         return "data variables %r, expected %r" % (sorted(ds.data_vars), sorted(vars_))
     for nm, vals in zip(conc.fn_args, avals):
@@ -694,7 +714,9 @@ def check_ds(case, conc, variant, ds):
         i = out[k]
         for v in vars_:
             a = np.asarray(sel[v].values, dtype=float)
-            if v == "x":
+            if v == "x" and mode == "xmix":
+                want = np.array(float(i) if i == 1 else (float(i) + 0.25 if i else np.nan))
+            elif v == "x":
                 want = np.array(float(i)) if i else np.array(np.nan)
             elif v == "y":
                 want = np.array(float(2 * i)) if i else np.array(np.nan)
@@ -747,7 +769,7 @@ RESULT_KINDS_GRID = ["scalar", "tuple2", "array", "int", "list2d"]
 RESULT_KINDS_CASES = ["scalar", "tuple2", "array", "str", "strbool", "list2d", "bool"]
 EXEC_STYLES = ["submit", "apply", "mppool"]
 VALUE_FLAVOURS = ["int", "float", "str", "mixed"]
-SPELLINGS = ["dict", "tuple", "list"]
+SPELLINGS = ["dict", "tuple", "list", "iter"]
 
 
 def variants_for(case, idx, prop, n_variants):
@@ -755,10 +777,10 @@ def variants_for(case, idx, prop, n_variants):
     out = []
     for j in range(n_variants):
         k = idx * 7 + j * 3
-        v = dict(values=VALUE_FLAVOURS[(k + j) % 4], spelling=SPELLINGS[(k // 2 + j) % 3],
+        v = dict(values=VALUE_FLAVOURS[(k + j) % 4], spelling=SPELLINGS[(k // 2 + j) % 4],
                  exec=EXEC_STYLES[(k + j) % 3], seed=[True, 3, 11][(k + j) % 3],
                  cases_as_dict=(k % 2 == 0), noshuffle=[False, 0][(k // 3) % 2], case_key_order=(k % 3 == 1),
-                 dupkind=k % 3, decoy=(k % 2 == 1), bare_cases=(k % 4 < 2))
+                 dupkind=k % 3, decoy=(k % 2 == 1), bare_cases=(k % 4 < 2), infer_fn_args=(k % 5 < 2))
         if cfg["kind"] in ("nested", "flat"):
             kinds = RESULT_KINDS_CASES if cfg["nca"] else RESULT_KINDS_GRID
             v["result"] = kinds[(k + j) % len(kinds)]
@@ -767,7 +789,7 @@ def variants_for(case, idx, prop, n_variants):
             v["split"] = (k % 2 == 1)
             v["entry"] = "case_runner" if (cfg["nca"] and cfg["kind"] == "flat" and k % 3 == 0) else "core"
         elif cfg["kind"] == "ds":
-            modes = ["x", "xy", "xv", "auto"] if cfg["meta"]["tdim"] else ["x", "xy", "autodict"]
+            modes = ["x", "xy", "xv", "auto"] if cfg["meta"]["tdim"] else ["x", "xy", "autodict", "xmix"]
             if cfg["meta"]["tdim"]:
                 modes = ["xv", "auto", "autovar"] if not cfg["meta"]["cdim"] else ["xv"]
             v["ds"] = modes[(k + j) % len(modes)]
